@@ -534,7 +534,8 @@ def process_template(unit, tpl_path):
             e = src.find(';', ms[0].start())
             text = src[ms[0].start():e + 1].strip()
             text = re.sub(r'^pub\(crate\)', 'pub', text)
-            text = re.sub(r':\s*&str\s*=', ": &'static str =", text, count=1)   # elided 'static in a const: the verus! macro wants it spelled out
+            text = re.sub(r':\s*&str\s*=', ": &'static str =", text, count=1)
+            text = re.sub(r'env!\([^)]*\)', '"" /* env!(..) erased: a build-time string whose value no contract depends on */', text)   # elided 'static in a const: the verus! macro wants it spelled out
             if exec_ens is not None:
                 mm = re.match(r'(pub\s+)?const\s+(\w+)\s*:\s*([^=]+?)\s*=\s*(.*);$', text, re.S)
                 if not mm:
